@@ -30,6 +30,9 @@ def build(a, rnd):
         m["cons"].append({"lb": None, "ub": 4, "lin": [], "expr": O(15, O(1, V(0), V(1)))})
     if "logic" in a["extra"]:
         m["lcons"].append(O(20, O(28, V(0), N(1)), O(28, V(2), N(1))))
+    if "fixmaxc" in a["extra"]:
+        m["vars"][2] = {"lb": 3, "ub": 3}
+        m["cons"].append({"lb": None, "ub": 9, "lin": [], "expr": O(12, V(0), N(3))})
     if "logic3" in a["extra"]:      # two more logical constraints (three in all)
         m["lcons"].append(O(20, O(28, V(1), N(2)), O(23, V(2), N(0))))
         m["lcons"].append(O(20, O(23, V(0), N(8)), O(28, V(1), N(1))))
@@ -42,7 +45,7 @@ def build(a, rnd):
         m["suffixes"] = m.get("suffixes", []) + [{"kind": 0, "name": "sosno", "vals": {0: sosno, 1: sosno, 2: sosno}},
                                                  {"kind": 0, "name": "ref", "real": True, "vals": {0: 1.0, 1: 2.0, 2: 3.0}}]
     nc = len(m["cons"])
-    inp = {"x0": [rnd.randint(0, 9), rnd.randint(0, 9), rnd.randint(-4, 4)], "pri": [rnd.randint(1, 9) for _ in range(3)],
+    inp = {"x0": [rnd.randint(0, 9), rnd.randint(0, 9), 3 if "fixmaxc" in a["extra"] else rnd.randint(-4, 4)], "pri": [rnd.randint(1, 9) for _ in range(3)],
            "varstt": [rnd.choice([1, 3, 4, 2]) for _ in range(3)], "constt": [rnd.choice([1, 3, 4, 5]) for _ in range(nc)],
            "lazy": [rnd.choice([1, -1, 2]) for _ in range(nc)]}
     inp["y0"] = [9000 + 7 * i + rnd.randint(0, 5) for i in range(nc)]     # larger than any scripted dual
@@ -170,7 +173,7 @@ def run(tier):
     g = tlc("GenVal", "GenVal.cfg", cwd=sd, workers=NPROC)
     tlc_must_pass(g, "GenVal")
     gen = printed_json(g, "CASE")
-    if len(gen) != 20160:
+    if len(gen) != 25200:
         raise Broken("GenVal produced %d cases" % len(gen))
     gen.sort(key=lambda c: json.dumps(c, sort_keys=True))
     rnd = random.Random(seed())
